@@ -161,7 +161,8 @@ PROPERTIES = {
                       "an existing name of the candidate's length; every retry makes the candidate longer); "
                       "for-loops over finite collections terminate by construction of the iteration protocol.",
         "bounded": "every public operation under a per-case wall-clock limit and a counted work bound for the simulation rounds",
-        "excluded": ["termination of clingo / AEON calls"],
+        "excluded": ["termination of clingo / AEON calls", "the worklist loops of expand_dfs / expand_minimal_spaces / expand_attractor_seeds (outer DFS loops: "
+                     "their measure needs the finite universe of trap spaces; bounded stand-in only)"],
         "trusted": ["every external call terminates"],
     },
     "C14": {
